@@ -47,9 +47,20 @@ def run(snap, tier, seed, t0, replay):
     return driver.simple_run("C12", snap, tier, seed, t0, replay, LEVEL, RULE, ASSUME, shard_args, floors_fn=floors, envs_fn=envs)
 
 
-def finder_clauses(rec, lab, name, f, s, case):
+def finder_clauses(rec, lab, name, f, s, case, as_object=False):
     from spil import Sid, SpilException
     c = dict(case, finder=name, search=s, kind_of_call="finder")
+    if as_object:
+        # the search handed over as a Sid OBJECT (typed or not: an or-list or a '**' search is an untyped Sid until it is unfolded);
+        # the clauses relate exists / find_one to find FOR THE SAME ARGUMENT
+        c["search_given_as"] = "Sid object"
+        try:
+            s = Sid(s)
+        except Exception:
+            return
+        rec.count("searches_given_as_Sid_object")
+        if not s:
+            rec.count("searches_given_as_untyped_Sid_object")
     try:
         lst = list(f.find(s, as_sid=True))
         strs = list(f.find(s, as_sid=False))
@@ -67,7 +78,7 @@ def finder_clauses(rec, lab, name, f, s, case):
         rec.count("first_result_untyped")
     if lst:
         rec.count("nonempty")
-        rec.nt("%s|%s|%s|%s" % (case["uid"], case.get("step"), name, s))
+        rec.nt("%s|%s|%s|%s%s" % (case["uid"], case.get("step"), name, s, "|obj" if as_object else ""))
     if [str(x) for x in lst] != strs:
         rec.violation("as_sid_vs_strings", c, "%r vs %r" % ([str(x) for x in lst][:5], strs[:5]))
     # (as_sid=True yields Sid objects, as_sid=False their strings: the TYPE of what is yielded belongs to the clause)
@@ -214,6 +225,8 @@ def one_step(rec, lab, ncalls, case):
         rec.ev()
         name = rng.choice(list(lab.finders))
         finder_clauses(rec, lab, name, lab.finders[name], s, case)
+        if rng.random() < 0.25:
+            finder_clauses(rec, lab, name, lab.finders[name], s, case, as_object=True)
     # Sid-level calls on existing and non-existing entities
     pool = list(lab.full)
     cands = rng.sample(pool, min(5, len(pool)))
@@ -254,7 +267,7 @@ def worker(args):
         _rs = _r.Random(c.get("strip_seed", 0))
         lab.finders["list_strip"] = FindInList([e + _rs.choice(["\n", " ", "\r\n", ""]) for e in lab.list], do_strip=True)
         if c.get("kind_of_call") == "finder":
-            finder_clauses(rec, lab, c["finder"], lab.finders[c["finder"]], c["search"], dict(c))
+            finder_clauses(rec, lab, c["finder"], lab.finders[c["finder"]], c["search"], dict(c), as_object=bool(c.get("search_given_as")))
         elif c.get("kind_of_call") == "sid":
             sid_clauses(rec, lab, c["sid"], dict(c))
         else:
